@@ -289,7 +289,10 @@ PLANS = {
         'mc': [{'module': 'MC_C19', 'what': 'UURandom: 3 goroutines x 2 calls, all interleavings: mutual exclusion, consecutive draws, no sharing; liveness AllDone'},
                {'module': 'MC_C19', 'cfg': 'MC_C19_nolock', 'expect_violation': 'Consecutive', 'what': 'negative control: without the lock TLC finds interleaved draws'}],
         'drivers': [{'name': 'c19', 'shards': 4, 'race': True}],
-        'legs': [race_leg, 'apalache_masks'],
+        'legs': [race_leg, 'apalache_masks',
+                 vf.apalache_leg('UURandomInd', 'IndInv', 0, 'lock protocol: Init => IndInv (5 goroutines, unbounded calls)', init='Init'),
+                 vf.apalache_leg('UURandomInd', 'IndInv', 1, 'lock protocol: IndInv /\\ Next => IndInv (inductive step)', init='IndInit'),
+                 vf.apalache_leg('UURandomInd', 'Safety', 0, 'IndInv => mutual exclusion and consecutive draws', init='IndInit')],
         'codes': ['C19.'],
         'rule': 'hook events (lock acquired / about to be released / draws received) and returned IDs of concurrent runs: 12 configurations of 1..64 goroutines x GOMAXPROCS 1..16, '
                 'with scheduler yields inside the critical section, ordered by an atomic counter inside the hooks; each run validated against the lock protocol, Compose, version/variant, '
